@@ -817,6 +817,13 @@ FAMILY = {"classes": [
                 ["mix", "mix", ["opt", ["lit", "x", 5]], False, None]]},
     {"name": "FAux", "base": None, "forbid": False, "ld": None, "consts": [],
      "fields": [["a", "a", "int", False, None]]},
+    # record-name order vs. inheritance: children of vt.base 1.0.0 whose names sort after
+    # (same package) and before (other package) the parent's; vt.leaf < vt.mid (same package)
+    # and vt.mid > vt.base (other package) complete the four combinations
+    {"name": "FZeta", "base": "FBase3", "forbid": False, "ld": None, "consts": [],
+     "fields": [["z", "z", ["opt", "int"], False, None]]},
+    {"name": "FAble", "base": "FBase3", "forbid": False, "ld": None, "consts": [],
+     "fields": [["able", "able", ["opt", "bool"], False, None]]},
 ], "main": "FSolo"}
 
 # class name -> (plugin name, version, auxiliary)
@@ -826,11 +833,12 @@ FAMILY_PLUGINS = {
     "FMid2": ("vt.mid", (0, 2, 0), False), "FLeaf1": ("vt.leaf", (0, 1, 0), False),
     "FLeaf2": ("vt.leaf", (1, 1, 0), False), "FSolo": ("vt.solo", (0, 1, 0), False),
     "FAux": ("vt.aux", (0, 1, 0), True),
+    "FZeta": ("vt.zeta", (0, 1, 0), False), "FAble": ("vt.able", (0, 3, 1), False),
 }
 # package name -> (version, class names)
 FAMILY_PACKAGES = {
-    "vpkg-alpha": ((1, 0, 0), ["FBase1", "FBase2", "FBase3", "FMid1"]),
-    "vpkg-beta": ((2, 3, 4), ["FMid2", "FLeaf1", "FLeaf2", "FSolo", "FAux"]),
+    "vpkg-alpha": ((1, 0, 0), ["FBase1", "FBase2", "FBase3", "FMid1", "FZeta"]),
+    "vpkg-beta": ((2, 3, 4), ["FMid2", "FLeaf1", "FLeaf2", "FSolo", "FAux", "FAble"]),
 }
 
 
